@@ -582,7 +582,8 @@ class Parser:
         self._add_instruction(OpCode.CTX)
         self.next_token()
         for param_name in routine.value.params:
-            if self.current_token == ']':
+            if (self.current_token.is_a(TokenTypes.MARK)
+                    and self.current_token == ']'):
                 return self.trigger_error(
                     'Missing parameter {}'.format(param_name))
             if not self._rvalue():
